@@ -49,7 +49,7 @@ impl Secp256R1Verifier {
 
     // Concatenate x and y coordinates as required by
     // EncodedPoint::from_untagged_bytes.
-    let public_key_bytes = jwu::decode_b64(&params.x)
+    let public_key_bytes: Vec<u8> = jwu::decode_b64(&params.x)
       .map_err(|err| {
         SignatureVerificationError::new(SignatureVerificationErrorKind::KeyDecodingFailure).with_source(err)
       })?
@@ -61,7 +61,14 @@ impl Secp256R1Verifier {
 
     // The JWK contains the uncompressed x and y coordinates, so we can create the
     // encoded point directly without prefixing an SEC1 tag.
-    let encoded_point: EncodedPoint = EncodedPoint::from_untagged_bytes(&public_key_bytes);
+    // Both coordinates must be present in full: the conversion below panics for any other length.
+    if public_key_bytes.len() != 64 {
+      return Err(
+        SignatureVerificationError::new(SignatureVerificationErrorKind::KeyDecodingFailure)
+          .with_custom_message("invalid length of the x and y coordinates"),
+      );
+    }
+    let encoded_point: EncodedPoint = EncodedPoint::from_untagged_bytes(public_key_bytes.as_slice().into());
     let public_key: PublicKey = {
       let opt_public_key: CtOption<PublicKey> = PublicKey::from_encoded_point(&encoded_point);
       if opt_public_key.is_none().into() {
